@@ -66,6 +66,30 @@ def run(ctx):
                 dict(got=[float(x) for x in m[:4]], want=[float(x) for x in want[:4]]))
         if m[0] != 0.0 or np.any(np.diff(m)[(lam[1:] + lam[:-1]) > 0] <= 0):
             bad("multiphase pseudopressure is not zero at the first pressure / not strictly increasing where mobility is positive", inp, [float(x) for x in m[:4]])
+        # relative permeabilities given as plain Python functions (the docstrings allow any callable), one of which hands back ITS
+        # ARGUMENT (straight-line kro = So): the integral is the same, and the caller's saturation array is left as it was
+        if k < (4 if ctx.quick else 40) and k % 5 != 3:
+            swf = float(sw)
+            kr_fn = {"kro": lambda s_: s_, "krg": lambda s_: np.clip(1.0 - swf - s_, 0.0, 1.0) ** 2, "krw": lambda s_: np.full(np.shape(s_), 0.05)}
+            kr_ref = dict(kr_fn, kro=lambda s_: 1.0 * np.asarray(s_, float))
+            so_arg = np.array(So, float)
+            so_keep = so_arg.copy()
+            ev += 1
+            try:
+                m_fn = np.asarray(pseudopressure_threephase(P, so_arg, pvt, kr_fn), float)
+            except Exception as e:  # noqa: BLE001
+                bad("pseudopressure_threephase fails when the relative permeabilities are plain Python functions", dict(**inp, kr="kro = So (returns its argument), krg = (1 - Sw - So)^2, krw = 0.05"), repr(e)[:200])
+                m_fn = None
+            if m_fn is not None:
+                lam_fn = doc_mobility(P, so_keep.copy(), pvt, kr_ref)
+                want_fn = np.concatenate([[0.0], np.cumsum(np.diff(P) * (lam_fn[1:] + lam_fn[:-1]) / 2)])
+                if not np.array_equal(so_arg, so_keep):
+                    bad("pseudopressure_threephase modifies the caller's saturation array (relative permeability given as a function that returns its argument)",
+                        dict(**inp, kr="kro = So (returns its argument)"), dict(So_before=[float(x) for x in so_keep[:4]], So_after=[float(x) for x in so_arg[:4]]))
+                if m_fn.shape != np.shape(P) or not np.allclose(m_fn, want_fn, rtol=1e-10, atol=1e-12 * abs(want_fn[-1])):
+                    bad("multiphase pseudopressure is not the trapezoid integral of the documented total mobility when the relative permeabilities are plain Python functions "
+                        "(kro hands back its argument)", dict(**inp, kr="kro = So (returns its argument), krg = (1 - Sw - So)^2, krw = 0.05"),
+                        dict(got=[float(x) for x in m_fn[:4]], want=[float(x) for x in want_fn[:4]], last_got=float(m_fn[-1]), last_want=float(want_fn[-1])))
         # "any constant factor": from unit conversions of the permeability (1 mD = 9.87e-16 m^2) to large ones
         c = float(rng.uniform(0.1, 50)) if k % 3 == 0 else dom.loguniform(rng, 1e-18, 1e-9) if k % 3 == 1 else dom.loguniform(rng, 1e3, 1e9)
         pvt2 = dict(pvt)
